@@ -22,3 +22,4 @@ CFG = {'level': 'exploration',
                     ('sort', 1)]},
  'assumptions': ['regexp transcription of the package doc grammar is correct', 'math/big and regexp are correct']}
 CFG['level_text'] += ' Sort is also given 2e4 (quick) / 1e6 (thorough) short lists, two thirds of them already ascending by precedence with the members of each tie in descending string order.'
+CFG['level_text'] += ' The number and identifier pools include decimal digits outside ASCII (alone, behind ASCII digits, hiding a leading zero) and Latin-1 letters.'
